@@ -86,6 +86,16 @@ pub fn check_tiling(text: &str) -> Result<(), (String, String)> {
             // blanking must preserve byte offsets: one blank per byte, line feeds kept
             let blanked: String = slice.bytes().map(|c| if c == b'\n' { '\n' } else { ' ' }).collect();
             if !(in_oscat && blanked == tk.text) {
+                // the OSCAT markers sit inside this token (a string literal or a comment): the
+                // preprocessor blanked part of the token
+                if let Some((a, b)) = oscat {
+                    let partly: String = slice.bytes().enumerate().map(|(k, c)| if s + k >= a && s + k < b && c != b'\n' { ' ' } else { c as char }).collect();
+                    let same_bytes: Vec<u8> = slice.bytes().enumerate().map(|(k, c)| if s + k >= a && s + k < b && c != b'\n' { b' ' } else { c }).collect();
+                    let _ = partly;
+                    if same_bytes == tk.text.as_bytes() {
+                        return Err(("token-text-oscat-inside-token".into(), format!("token #{} ({:?}) contains the OSCAT description markers; the text between them was blanked inside the token", i, tk.token_type)));
+                    }
+                }
                 return Err(("token-text".into(), format!("token #{} text {:?} differs from source[{}..{}] = {:?}", i, tk.text, s, e, slice)));
             }
         }
